@@ -74,3 +74,229 @@ def parse_fp_value(tok):
         raise EngineError(f'cannot parse {tok}')
     bits = (int(m.group(1)) << 63) | (int(m.group(2), 2) << 52) | int(m.group(3), 16)
     return struct.unpack('>d', bits.to_bytes(8, 'big'))[0]
+
+
+# ---------------------------------------------------------------------------------------------------------------
+# log2-magnitude abstraction of IEEE-754 binary64 (round to nearest even) on NON-NEGATIVE values -> QF_LRA
+#
+# Bit-blasted QF_FP cannot prove range statements over a dozen multiplications (unknown after 300 s for one
+# node of the pruning recursion), and the underflow question of C03 is a statement about exponents.  Every
+# double x >= 0 is represented by (z_x : Bool "x == +0", e_x : Real = log2(x) exactly when x > 0); every operation
+# contributes a RELATION that the exact log2 of the Float64 result satisfies:
+#   fl(a*b), a,b > 0, s = e_a + e_b :   s >= -1022           -> result > 0,  |e - s| <= eps        (|delta| <= 2^-53)
+#                                        -1074 <= s < -1022   -> result > 0,  -1074 <= e <= s + 1   (gradual underflow)
+#                                        -1076 <= s < -1074   -> result == 0  or  e = -1074
+#                                        s < -1076            -> result == 0
+#   fl(a+b), a,b > 0               :   max(e_a,e_b) <= e <= max(e_a,e_b) + 1 + eps ; x + 0 = x
+#   fl(a/b), b > 0                 :   as the product with s = e_a - e_b (s <= 1023); b == 0: result unconstrained
+#   comparisons                    :   exact on (z, e)   (log2 is strictly increasing)
+# The relation over-approximates the set of Float64 behaviours, hence `unsat` of (hypotheses and not goal) is sound
+# for the Float64 semantics; `sat` may be spurious and is replayed on the real code with plain tensors.
+# Constants c > 0 get e in a rational enclosure of log2(c) (exact for powers of two).
+EPS_LOG2 = Fraction(1, 2 ** 50)
+E_MIN_NORMAL = -1022
+E_MIN_SUBNORMAL = -1074
+CZ_MARGIN = 40
+
+
+def _q(fr):
+    fr = Fraction(fr)
+    s = f'{abs(fr.numerator)}.0' if fr.denominator == 1 else f'(/ {abs(fr.numerator)}.0 {fr.denominator}.0)'
+    return f'(- {s})' if fr < 0 else s
+
+
+def log2_enclosure(fr: Fraction):
+    """rational l <= log2(fr) <= u (l == u for powers of two)"""
+    import math
+
+    fr = Fraction(fr)
+    if fr <= 0:
+        raise EngineError('log2 of a non-positive constant')
+    n, m = fr.numerator, fr.denominator
+    if n & (n - 1) == 0 and m & (m - 1) == 0:
+        k = Fraction(n.bit_length() - m.bit_length())
+        return k, k
+    v = math.log2(n) - math.log2(m)  # python ints of any size; error far below 2^-40 relative to |v| <= 2200
+    slack = Fraction(1, 2 ** 36)
+    c = Fraction(v).limit_denominator(2 ** 44)
+    return c - slack, c + slack
+
+
+def mag_hashes(dag, roots):
+    """structural hash per node: identical sub-terms of different traces (different DAGs) get identical SMT names"""
+    import hashlib
+
+    hs = {}
+    for n in dag.topo(list(roots)):
+        op = dag.ops[n]
+        a = dag.args[n]
+        if op == 'var':
+            key = 'var:' + a[0]
+        elif op == 'const':
+            key = f'const:{a[0]}'
+        elif op == 'bconst':
+            key = f'bconst:{a[0]}'
+        elif op == 'uf':
+            key = 'uf:' + a[0] + ':' + ','.join(hs[x] for x in a[1:])
+        elif op == 'ipow':
+            key = f'ipow:{hs[a[0]]}:{a[1]}'
+        else:
+            key = op + ':' + ','.join(hs[x] for x in a)
+        hs[n] = hashlib.sha1(key.encode()).hexdigest()[:14]
+    return hs
+
+
+def lower_mag(dag, roots):
+    """QF_LRA relations for the cone of `roots` (numeric and boolean nodes).
+    Returns (lines, ref, inputs): ref[n] = ('num', zname, ename, czname) | ('bool', name); inputs = [(var name, z, e)].
+    Lines are keyed by structural hashes, so scripts of several traces can be concatenated and de-duplicated.
+    czname is a SUFFICIENT condition (with a margin of 2^-CZ_MARGIN) for the Float64 value to be exactly zero: it is
+    used only to steer the solver towards counterexamples that survive the concrete replay, never to prove."""
+    hs = mag_hashes(dag, roots)
+    lines = []
+    ref = {}
+    inputs = []
+    eps = _q(EPS_LOG2)
+    for n in dag.topo(list(roots)):
+        op = dag.ops[n]
+        a = dag.args[n]
+        h = hs[n]
+        if op in ('le', 'lt', 'eq', 'not', 'and', 'or', 'bconst'):
+            nm = f'b_{h}'
+            if op == 'bconst':
+                e = 'true' if a[0] else 'false'
+            elif op == 'not':
+                e = f'(not {ref[a[0]][1]})'
+            elif op in ('and', 'or'):
+                e = f'({op} ' + ' '.join(ref[x][1] for x in a) + ')'
+            else:
+                za, ea = ref[a[0]][1:3]
+                zb, eb = ref[a[1]][1:3]
+                if op == 'le':
+                    e = f'(or {za} (and (not {zb}) (<= {ea} {eb})))'
+                elif op == 'lt':
+                    e = f'(and (not {zb}) (or {za} (< {ea} {eb})))'
+                else:
+                    e = f'(or (and {za} {zb}) (and (not {za}) (not {zb}) (= {ea} {eb})))'
+            lines.append(f'(define-fun {nm} () Bool {e})')
+            ref[n] = ('bool', nm)
+            continue
+        z, e, cz = f'z_{h}', f'e_{h}', f'c_{h}'
+        if op == 'stop':
+            ref[n] = ref[a[0]]
+            continue
+        if op == 'ite':
+            c = ref[a[0]][1]
+            _, za, ea, ca = ref[a[1]]
+            _, zb, eb, cb = ref[a[2]]
+            lines.append(f'(define-fun {z} () Bool (ite {c} {za} {zb}))')
+            lines.append(f'(define-fun {e} () Real (ite {c} {ea} {eb}))')
+            lines.append(f'(define-fun {cz} () Bool (ite {c} {ca} {cb}))')
+            ref[n] = ('num', z, e, cz)
+            continue
+        lines.append(f'(declare-const {z} Bool)')
+        lines.append(f'(declare-const {e} Real)')
+        ref[n] = ('num', z, e, cz)
+        if op == 'var':
+            inputs.append((a[0], z, e))
+            lines.append(f'(define-fun {cz} () Bool {z})')
+        elif op == 'const':
+            fr = a[0]
+            if fr < 0:
+                raise EngineError('magnitude abstraction: negative constant')
+            lines.append(f'(define-fun {cz} () Bool {"true" if fr == 0 else "false"})')
+            if fr == 0:
+                lines.append(f'(assert {z})')
+            else:
+                lo, hi = log2_enclosure(fr)
+                lines.append(f'(assert (and (not {z}) (<= {_q(lo)} {e}) (<= {e} {_q(hi)})))')
+        elif op == 'add':
+            _, za, ea, ca = ref[a[0]]
+            _, zb, eb, cb = ref[a[1]]
+            lines.append(f'(define-fun {cz} () Bool (and {ca} {cb}))')
+            mx = f'(ite (>= {ea} {eb}) {ea} {eb})'
+            lines.append(f'(assert (=> {za} (and (= {z} {zb}) (=> (not {zb}) (= {e} {eb})))))')
+            lines.append(f'(assert (=> (and {zb} (not {za})) (and (not {z}) (= {e} {ea}))))')
+            lines.append(f'(assert (=> (and (not {za}) (not {zb})) (and (not {z}) (<= {mx} {e}) (<= {e} (+ {mx} 1.0 {eps})))))')
+        elif op in ('mul', 'div'):
+            _, za, ea, ca = ref[a[0]]
+            _, zb, eb, cb = ref[a[1]]
+            s = f's_{h}'
+            lines.append(f'(define-fun {s} () Real ({"+" if op == "mul" else "-"} {ea} {eb}))')
+            deep = f'(and (not {za}) (not {zb}) (< {s} {_q(E_MIN_SUBNORMAL - 2 - CZ_MARGIN)}))'
+            lines.append(f'(define-fun {cz} () Bool (or {ca} {deep}' + (f' {cb}))' if op == 'mul' else '))'))
+            under = (f'(and (or {z} (and (>= {e} {_q(E_MIN_SUBNORMAL)}) (<= {e} (+ (ite (>= {s} {_q(E_MIN_SUBNORMAL - 1)}) {s} '
+                     f'{_q(E_MIN_SUBNORMAL - 1)}) 1.0)))) (=> (< {s} {_q(E_MIN_SUBNORMAL - 2)}) {z}) (=> (>= {s} {_q(E_MIN_SUBNORMAL)}) (not {z})))')
+            normal = f'(and (not {z}) (<= (- {s} {eps}) {e}) (<= {e} (+ {s} {eps})))'
+            if op == 'mul':
+                lines.append(f'(assert (=> (or {za} {zb}) {z}))')
+                lines.append(f'(assert (=> (and (not {za}) (not {zb}) (>= {s} {_q(E_MIN_NORMAL)})) {normal}))')
+                lines.append(f'(assert (=> (and (not {za}) (not {zb}) (< {s} {_q(E_MIN_NORMAL)})) {under}))')
+            else:
+                # b == 0 (inf / nan) leaves the result unconstrained: denominators carry their own obligation
+                lines.append(f'(assert (=> (and (not {zb}) {za}) {z}))')
+                lines.append(f'(assert (=> (and (not {za}) (not {zb}) (>= {s} {_q(E_MIN_NORMAL)}) (<= {s} 1023.0)) {normal}))')
+                lines.append(f'(assert (=> (and (not {za}) (not {zb}) (< {s} {_q(E_MIN_NORMAL)})) {under}))')
+        else:
+            raise EngineError(f'magnitude abstraction of {op} not supported')
+    return lines, ref, inputs
+
+
+def mag_margins(dag, bool_roots, ref, margin):
+    """witness steering (never used to prove): every order comparison below `bool_roots` is decided by a factor
+    >= 2^margin, or one side is exactly zero"""
+    out = []
+    seen = set()
+    stack = list(bool_roots)
+    while stack:
+        n = stack.pop()
+        if n in seen:
+            continue
+        seen.add(n)
+        op = dag.ops[n]
+        if op in ('not', 'and', 'or'):
+            stack += list(dag.args[n])
+        elif op in ('le', 'lt'):
+            a, b = dag.args[n]
+            za, ea = ref[a][1:3]
+            zb, eb = ref[b][1:3]
+            out.append(f'(or {za} {zb} (>= (- {ea} {eb}) {margin}.0) (>= (- {eb} {ea}) {margin}.0))')
+    return out
+
+
+def mag_script(blocks, asserts, get=()):
+    """assemble: blocks = lists of lines from lower_mag (de-duplicated, order kept), asserts = SMT boolean texts,
+    get = [(label, smt term)] -> text, get_values (indices for smt.solve_text: term k is named n<k>)"""
+    out = ['(set-logic QF_LRA)']
+    seen = set()
+    for b in blocks:
+        for l in b:
+            if l not in seen:
+                seen.add(l)
+                out.append(l)
+    for a in asserts:
+        out.append(f'(assert {a})')
+    out.append('(check-sat)')
+    if get:
+        for k, (_, term, sort) in enumerate(get):
+            out.insert(len(out) - 1, f'(define-fun n{k} () {sort} {term})')
+        out.append('(get-value (' + ' '.join(f'n{k}' for k in range(len(get))) + '))')
+    return '\n'.join(out) + '\n', list(range(len(get)))
+
+
+def mag_value(z, e):
+    """concrete double of a model value (z: bool, e: rational log2)"""
+    if z:
+        return 0.0
+    e = Fraction(e)
+    if e.denominator == 1:
+        k = int(e)
+        if k < E_MIN_SUBNORMAL:
+            return 0.0
+        import math
+
+        return math.ldexp(1.0, k)
+    try:
+        return 2.0 ** float(e)
+    except OverflowError:
+        return float('inf')
